@@ -495,7 +495,7 @@ class C05(fw.Property):
     level_text = ("Theorems (all closed under the global context): _extract_block partitions a body (kernels translated from message.py / optiontypes.py on every run), for exponents 0..6 and for BERT; "
                   "the client's Block1 requests are a contiguous, never-growing chain against ANY server (BERT: any server that keeps exponent 7); client x RFC 7959 reference server terminates for every body, "
                   "representation, client exponent 0..6 and every server policy with the server holding exactly the body and the caller exactly the representation (BERT: reference server that keeps exponent 7); "
-                  "the same over a network that duplicates requests and responses arbitrarily, behind the deduplicating message layer (simulation theorem for any server); Block2 assembly against ANY response list "
+                  "the same over a network that duplicates requests and responses and kills exchanges arbitrarily, behind the deduplicating message layer (identical run, or NetworkError with a prefix transcript; simulation theorems for any server); a run ends only in a response or in one of seven classified errors (never BadRequest); Block2 assembly against ANY response list "
                   "yields only exact in-order concatenations of consistent chains, hence one whole representation when blocks are tagged slices; sequencing violations end at once in the named errors. "
                   "The hand-written client machine is tied to protocol.py by running both on the same scenarios (reference server, arbitrary scripted responses, lossy network, BERT remotes).")
     level_note = ("Trusted: Coq kernel + vm_compute; translator py2v.py + the C05 job's ast rewrite (validated by the kernels stream); correspondence of Model/C05.v with "
